@@ -61,6 +61,8 @@ def soergel(fp1, fp2):
         return tanimoto(fp1, fp2)
 
     counts_diff = diff_counts_dict(fp1, fp2)
+    if len(counts_diff) == 0:
+        return 0.0
     temp = np.asarray(
         [
             (abs(counts_diff[x]), max(fp1.get_count(x), fp2.get_count(x)))
